@@ -242,6 +242,17 @@ nni_msgq_aio_put(nni_msgq *mq, nni_aio *aio)
 
 	// If this is an instantaneous poll operation, and the queue has
 	// no room, nobody is waiting to receive, then report NNG_ETIMEDOUT.
+	// So see first whether we can complete at once (we can if a reader
+	// is waiting or there is room, and no earlier writer is waiting).
+	if (nni_list_empty(&mq->mq_aio_putq) &&
+	    ((!nni_list_empty(&mq->mq_aio_getq)) ||
+	        (mq->mq_len < mq->mq_cap))) {
+		nni_aio_list_append(&mq->mq_aio_putq, aio);
+		nni_msgq_run_putq(mq);
+		nni_msgq_run_notify(mq);
+		nni_mtx_unlock(&mq->mq_lock);
+		return;
+	}
 	if (!nni_aio_start(aio, nni_msgq_cancel, mq)) {
 		nni_mtx_unlock(&mq->mq_lock);
 		return;
@@ -257,6 +268,16 @@ void
 nni_msgq_aio_get(nni_msgq *mq, nni_aio *aio)
 {
 	nni_mtx_lock(&mq->mq_lock);
+	// Complete at once if we can (also for a zero timeout): a message is
+	// queued or a writer is waiting, and no earlier reader is waiting.
+	if (nni_list_empty(&mq->mq_aio_getq) &&
+	    ((mq->mq_len != 0) || (!nni_list_empty(&mq->mq_aio_putq)))) {
+		nni_aio_list_append(&mq->mq_aio_getq, aio);
+		nni_msgq_run_getq(mq);
+		nni_msgq_run_notify(mq);
+		nni_mtx_unlock(&mq->mq_lock);
+		return;
+	}
 	if (!nni_aio_start(aio, nni_msgq_cancel, mq)) {
 		nni_mtx_unlock(&mq->mq_lock);
 		return;
